@@ -208,7 +208,7 @@ class NbSession:
             if self.big and not (i == 0 and v.isrec):
                 # requests on both sides of the 4096-byte threshold
                 xs = ELSIZE[v.xtype]
-                want = rng.choice([SWAP_THRESHOLD // xs, SWAP_THRESHOLD // xs + 1, SWAP_THRESHOLD // xs - 1, lim, SWAP_THRESHOLD // xs + 7])
+                want = rng.choice([SWAP_THRESHOLD // xs, SWAP_THRESHOLD // xs + 1, SWAP_THRESHOLD // xs - 1, SWAP_THRESHOLD // xs + 7, 3])
                 c = max(1, min(lim, want))
                 st = rng.below(lim - c + 1)
                 start.append(st); count.append(c); stride.append(1)
@@ -222,7 +222,7 @@ class NbSession:
                 st = rng.below(lim)
                 c = rng.range(1, (lim - 1 - st) // t + 1)
             if self.big and i == 0 and v.isrec:
-                st = min(st, 1); c = min(c, 2)
+                st = min(st, 1); c = 1 if rng.chance(4, 5) else min(c, 2)
             start.append(st); count.append(c); stride.append(t)
         return start, count, stride
 
